@@ -537,7 +537,9 @@ def render_geom(rng, items, glue=0.0, breaks=0.05, comments=0.3, multi=0.2, widt
             s = "" if rng.random() < 0.75 else " "
         elif t == ":" or prev == ":":
             s = "" if rng.random() < 0.5 else " "
-        elif (t == "(" and (prev == ")" or prev[-1].isdigit())) or (prev == ")" and t[0] in "+-0123456789"):
+        elif (t == "(" and (prev == ")" or prev[-1].isdigit())) or (prev == ")" and t[0] in "+-0123456789") \
+                or (t[0] == "#" and (prev == ")" or prev[-1].isdigit())):
+            # implicit intersection: ")(" "1(" ")1" and, since c11a1dc, a complement after them: ")#3" ")#(" "1#3"
             s = "" if rng.random() < glue else " "
         else:
             s = " " * (rng.choice([2, 3, 6]) if rng.random() < multi else 1)
@@ -1056,7 +1058,8 @@ def run(ctx):
                 bump(dist["base_leaves"], bucket(n_leaves(ob["base_ast"])))
             dist["base_multiline"] += len(bl) > 1
             dist["base_with_comment"] += any("$" in l or re.match(r"^ {0,4}[cC]( |$)", l) for l in bl)
-            dist["base_glued"] += bool(re.search(r"\)\(|\d\(|\)[+-]?\d", " ".join(bl)))
+            dist["base_glued"] += bool(re.search(r"\)\(|\d\(|\)[+-]?\d|[\d)]#", " ".join(bl)))
+            dist["base_glued_complement"] = dist.get("base_glued_complement", 0) + bool(re.search(r"[\d)]#", " ".join(bl)))
             dist["base_with_redundant_parens"] += "(p " in (ob["tree"] or "")
         bump(dist["outcomes"], ob.get("outcome", "?"))
         if ob.get("outcome") == "ok":
